@@ -33,7 +33,9 @@ BIN = {"add": lambda a, b: a + b, "sub": lambda a, b: a - b, "mul": lambda a, b:
 # functions that exist in one engine kind only (registered in Engine.functions by dbx.make_engines):
 # f(x) = 2x + 1.  Unlike the operator-named restricted functions these really cannot be evaluated
 # by the other engine, so a tree that wrongly accepts them fails at execution.
-ONLY = {"only_it": "vm_only_it", "only_sql": "vm_only_sql"}
+ONLY = {"only_it": "vm_only_it", "only_sql": "vm_only_sql", "both": "vm_both"}
+# "vm_both" is registered in EVERY engine's `functions`: an expression that restricts it to one engine
+# kind through supporting_engine_types is still unsupported by the other kind, registered or not.
 BIN_METHOD = {"add": "__add__", "sub": "__sub__", "mul": "__mul__", "fdiv": "__floordiv__"}
 
 
